@@ -19,6 +19,8 @@ import (
 // Builder replays an abstract module through llir's public constructors.
 type Builder struct {
 	stale  bool
+	lateAS bool
+	lateAssign []func()
 	M      *ir.Module
 	ts     *Types
 	am     *am.Module
@@ -49,7 +51,15 @@ func Module(m *am.Module) (*ir.Module, map[string]int) { return ModuleWith(m, fa
 // keeps address space 0 and operands print with it. That output is wrong but deterministic; C13 uses
 // this mode because printing must not write the caches in that state either.
 func ModuleWith(m *am.Module, staleTypes bool) (*ir.Module, map[string]int) {
-	b := &Builder{stale: staleTypes, M: ir.NewModule(), ts: NewTypes(m.U), am: m,
+	return ModuleWithLate(m, staleTypes, false)
+}
+
+// ModuleWithLate is ModuleWith; lateAS (only together with staleTypes) assigns the address spaces of global
+// variables and functions after everything else was built, so that whatever cached a type derived from them
+// (aliases, constant expressions, instructions) keeps address space 0. The output is wrong but must be
+// deterministic, and printing must not repair caches in passing (C13).
+func ModuleWithLate(m *am.Module, staleTypes, lateAS bool) (*ir.Module, map[string]int) {
+	b := &Builder{stale: staleTypes, lateAS: staleTypes && lateAS, M: ir.NewModule(), ts: NewTypes(m.U), am: m,
 		funcs: map[*am.Fun]*ir.Func{}, globs: map[*am.Global]*ir.Global{}, alias: map[*am.Alias]value.Value{},
 		blocks: map[*am.Block]*ir.Block{}, insts: map[*am.Inst]value.Value{}, params: map[*am.Param]*ir.Param{},
 		comdat: map[*am.Comdat]*ir.ComdatDef{}, groups: map[*am.AttrGroup]*ir.AttrGroupDef{}, mds: map[*am.MDNode]*metadata.Tuple{},
@@ -140,6 +150,9 @@ func (b *Builder) build() {
 			nd.Nodes = append(nd.Nodes, b.mdField(f).(metadata.Node))
 		}
 		b.M.NamedMetadataDefs[nm.Name] = nd
+	}
+	for _, f := range b.lateAssign {
+		f()
 	}
 }
 
@@ -334,7 +347,12 @@ func (b *Builder) globalScaffold(g *am.Global) {
 	gl.DLLStorageClass = dll(g.DLL)
 	gl.TLSModel = tls(g.TLS)
 	gl.UnnamedAddr = unnamedAddr(g.UnnamedAddr)
-	gl.AddrSpace = types.AddrSpace(g.AddrSpace)
+	if b.lateAS {
+		as := types.AddrSpace(g.AddrSpace)
+		b.lateAssign = append(b.lateAssign, func() { gl.AddrSpace = as })
+	} else {
+		gl.AddrSpace = types.AddrSpace(g.AddrSpace)
+	}
 	if !b.stale {
 		gl.Typ = nil // the address space is part of the type: let the library recompute it (now, not lazily during printing)
 		gl.Type()
@@ -405,7 +423,12 @@ func (b *Builder) funcScaffold(f *am.Fun) {
 		fn.ReturnAttrs = append(fn.ReturnAttrs, b.retAttr(a))
 	}
 	fn.UnnamedAddr = unnamedAddr(f.UnnamedAddr)
-	fn.AddrSpace = types.AddrSpace(f.AddrSpace)
+	if b.lateAS {
+		as := types.AddrSpace(f.AddrSpace)
+		b.lateAssign = append(b.lateAssign, func() { fn.AddrSpace = as })
+	} else {
+		fn.AddrSpace = types.AddrSpace(f.AddrSpace)
+	}
 	if !b.stale {
 		fn.Typ = nil
 		fn.Type() // recompute the cached pointer type with the address space, before anything can print concurrently
